@@ -154,6 +154,14 @@ pub trait QueryBuilder:
 
         self.prepare_condition(&select.having, "HAVING", sql);
 
+        if let Some((name, query)) = &select.window {
+            write!(sql, " WINDOW ").unwrap();
+            name.prepare(sql.as_writer(), self.quote());
+            write!(sql, " AS ( ").unwrap();
+            self.prepare_window_statement(query, sql);
+            write!(sql, " )").unwrap();
+        }
+
         if !select.unions.is_empty() {
             select.unions.iter().for_each(|(union_type, query)| {
                 self.prepare_union_statement(*union_type, query, sql);
@@ -176,14 +184,6 @@ pub trait QueryBuilder:
         if let Some(lock) = &select.lock {
             write!(sql, " ").unwrap();
             self.prepare_select_lock(lock, sql);
-        }
-
-        if let Some((name, query)) = &select.window {
-            write!(sql, " WINDOW ").unwrap();
-            name.prepare(sql.as_writer(), self.quote());
-            write!(sql, " AS ( ").unwrap();
-            self.prepare_window_statement(query, sql);
-            write!(sql, " )").unwrap();
         }
     }
 
